@@ -185,8 +185,8 @@ def mergeInline (inl : List (String × J)) (kvs : List (String × J)) : List (St
 
 /-- `TaskSpec._process_action_and_workflow`: `self._input = data.get('input', {})` is the dict of the
     source data only when the key is present.  Domain: `input` absent, null or a dict.  For a string /
-    list / number `input` together with inline parameters the code raises TypeError (known finding
-    `merge_dicts(self._input, params)`); the correspondence skips those documents. -/
+    list / number `input` together with inline parameters the code rejects the task (InvalidModelException
+    since repo fix PENDING-07, TypeError before); the correspondence skips those documents. -/
 def mergeInput (inl : List (String × J)) (kvs : List (String × J)) : List (String × J) :=
   match getKey "input" kvs with
   | some (.obj inp) => setKey "input" (.obj (mergeInline inl inp)) kvs
@@ -292,16 +292,16 @@ def OnClause.written : OnClause → List String
   | .single e | .advSingle e => [e.target]
   | .list es | .advList es => es.map (·.target)
 
-/-- `OnClauseSpec.__init__` + `prepare_next_clause` as coded: *every* dict is read as the advanced
-    form (`data.get('next')`), so the guarded single form `{t1: <% guard %>}` — which the schema
-    accepts as TASK_WITH_EXPRESSION — yields no transition at all. -/
+/-- `OnClauseSpec.__init__` + `prepare_next_clause` as coded (after repo fix PENDING-08): a dict is the
+    advanced form only if it has `next` or `publish`; the guarded single form `{t1: <% guard %>}` is a
+    one-element list of transitions, also as the value of `next`. -/
 def OnClause.nextOf : OnClause → List String
   | .absent | .advNoNext => []
-  | .single e => if e.guarded then [] else [e.target]
+  | .single e => [e.target]
   | .advSingle e => [e.target]
   | .list es | .advList es => es.map (·.target)
 
-/-- the one accepted syntactic form that the constructor does not read: a guarded single entry. -/
+/-- the guarded single entry (before repo fix PENDING-08 the constructor did not read it). -/
 def OnClause.isGuardedSingle : OnClause → Bool
   | .single e => e.guarded
   | _ => false
